@@ -92,6 +92,7 @@ class Inputs:
 
 class Outer(loops.Constructive):
     """for i in range(nz-1): state = Prop(i).init; out[k] = Prop(levels[k]).init for levels[k] < i."""
+    state_names = ("fftpi", "fftqi", "fftp", "fftq")
 
     def __init__(self, inp, props):
         self.inp = inp
@@ -124,6 +125,7 @@ class Outer(loops.Constructive):
 
 class Inner(loops.Constructive):
     """for k in range(nlvls): out[k'] = state if (k' < k and levels[k'] == i) else before."""
+    state_names = ("fftp", "fftq")
 
     def __init__(self, outer, props):
         self.outer = outer
@@ -145,7 +147,7 @@ class Inner(loops.Constructive):
 
 # loop selectors (frontend.resolve_loop_selectors): the marching loop assigns the running state fftpi, the
 # level loop inside it is the innermost loop that stores into fftp, the final level loop stores fftp only
-IVP_LOOPS = ("outer:fftpi", "inner:fftp", "outer:fftp!fftpi")
+IVP_LOOPS = ("outer:fftpi|nest:0", "inner:fftp|nest:0.0", "outer:fftp!fftpi|nest:1")
 
 
 def _loop_specs(inp, props):
@@ -170,6 +172,7 @@ def generate_bookkeeping(ctx, props):
         # loop specs must exist at compile time but depend on per-run inputs
         def __init__(self, k):
             self.k = k
+            self.state_names = Outer.state_names if k == IVP_LOOPS[0] else Inner.state_names
 
         def __getattr__(self, a):
             return getattr(holder["specs"][self.k], a)
@@ -303,6 +306,7 @@ def generate_step(ctx, props):
     class Proxy:
         def __init__(self, k):
             self.k = k
+            self.state_names = Outer.state_names if k == IVP_LOOPS[0] else Inner.state_names
 
         def __getattr__(self, a):
             return getattr(holder["specs"][self.k], a)
